@@ -99,14 +99,14 @@ Proof. exact saml_spec_conforms. Qed.
 (** the LogoutResponse itself, from the source of logout_response.go: InResponseTo echoes the request ID, Destination is
     the logout URL, Issuer the IdP's entity ID, the status the one given (Success for the successful builder) *)
 Theorem C13_built_response : forall reqid url issuer reason message id1 rest issue until,
-  (exists d, built_value "makeFailedLogoutResponse" (Some (logout_rec reqid url issuer)) [DStr reason; DStr message; DStr (b "f")] (id1 :: rest) issue until = Some (d, rest) /\
+  (built_sat "makeFailedLogoutResponse" (Some (logout_rec reqid url issuer)) [DStr reason; DStr message; DStr (b "f")] (id1 :: rest) issue until (fun d r => r = rest /\
      at_ d ["Id"%string] = Some (DStr id1) /\ at_ d ["InResponseTo"%string] = Some (DStr reqid) /\ at_ d ["Destination"%string] = Some (DStr url) /\
      at_ d ["Issuer"; "Text"]%string = Some (DStr issuer) /\ at_ d ["IssueInstant"%string] = Some (DStr issue) /\
-     at_ d ["Status"; "StatusCode"; "Value"]%string = Some (DStr reason) /\ at_ d ["Status"; "StatusMessage"]%string = Some (DStr message)) /\
-  (exists d, built_value "makeSuccessfulLogoutResponse" (Some (logout_rec reqid url issuer)) [DStr (b "f")] (id1 :: rest) issue until = Some (d, rest) /\
+     at_ d ["Status"; "StatusCode"; "Value"]%string = Some (DStr reason) /\ at_ d ["Status"; "StatusMessage"]%string = Some (DStr message))) /\
+  (built_sat "makeSuccessfulLogoutResponse" (Some (logout_rec reqid url issuer)) [DStr (b "f")] (id1 :: rest) issue until (fun d r => r = rest /\
      at_ d ["Id"%string] = Some (DStr id1) /\ at_ d ["InResponseTo"%string] = Some (DStr reqid) /\ at_ d ["Destination"%string] = Some (DStr url) /\
      at_ d ["Issuer"; "Text"]%string = Some (DStr issuer) /\ at_ d ["IssueInstant"%string] = Some (DStr issue) /\
-     at_ d ["Status"; "StatusCode"; "Value"]%string = Some (DStr (b "urn:oasis:names:tc:SAML:2.0:status:Success"))).
+     at_ d ["Status"; "StatusCode"; "Value"]%string = Some (DStr (b "urn:oasis:names:tc:SAML:2.0:status:Success")))).
 Proof. exact logout_response_fields. Qed.
 
 (** decoding opened up one level (DecodeLogoutRequest = InflateAndDecode + parser, C06_decode_from_source): a request
